@@ -18,6 +18,16 @@ derivative is splev, splev passes through the knots) on every tck.
 Oracle (independent of the model): the property's wording on the
 implementation's outputs: values at the knots, constancy outside, additivity,
 antisymmetry, Gauss-Legendre area of the object's own __call__.
+History stage (runs first, in a process that has built no spline yet): sequences
+of functions built, used and discarded (or kept alive and used again) one after
+the other in ONE process, sharing exactly one thing - all knot levels / the two
+end levels / one end level / all values / the end values - and differing in the
+rest, all asked at the same levels: each must be the function of its OWN
+parameters (values against the exact not-a-knot spline computed with Fractions,
+integrals against the area under its own __call__ and under that reference).
+State carried between objects (module-level memo, mutable default argument,
+id() reuse, class attribute) shows up only there; the case holds the whole
+sequence, so its replay starts from a fresh process and rebuilds the history.
 """
 import math
 from fractions import Fraction
@@ -328,6 +338,102 @@ def malformed(rng, out, label):
                       case=dict(level='malformed', knots=xs, values=ys))
 
 
+# ------------------------------------------------------------- history
+
+def history_cases(seed, per_kind):
+    cases = []
+    for k, kind in enumerate(GS.HISTORY_KINDS * per_kind):
+        rng = C.rng_for(seed, PROP, 'history', k)
+        seq = GS.history_sequence(rng, kind)
+        cases.append(dict(level='history', kind=kind, keep=bool((k // len(GS.HISTORY_KINDS)) % 2), seq=seq,
+                          levels=GS.history_levels(rng, seq)))
+    return cases
+
+
+def history_member(ks, obj, levels, n, when, prev, out, case):
+    """One function of a sequence against its own parameters.  Returns False after the first violation."""
+    knots, values = [float(x) for x in ks['knots']], [float(y) for y in ks['values']]
+    ref = GS.reference_function(knots, values)
+    who = ('function number %d of a sequence built in one process (%s; %s) with knots %r values %r'
+           % (n + 1, case['kind'], when, knots, values))
+    prev_s = '; built before it: %s' % ('knots %r values %r' % (prev['knots'], prev['values']) if prev else 'nothing')
+    dense = [ref(x) for x in np.linspace(knots[0], knots[-1], 60)]
+    scale = max(max(abs(v) for v in values), max(abs(v) for v in dense), 1e-300)
+    pts = sorted(set(levels) | set(knots))
+    for x in pts:
+        got, want = fl(obj(x)), ref(x)
+        out.evaluations += 1
+        if not abs(got - want) <= 1e-9 * scale:
+            out.violation('oracle', '%s: specific yield at level %r is %r, the spline through its own knots '
+                          '(constant beyond them) gives %r%s' % (who, x, got, want, prev_s), case=case)
+            return False
+    arr = np.asarray(obj(np.array(pts, dtype=float)), dtype=float).reshape(-1)
+    if [float(v) for v in arr] != [fl(obj(x)) for x in pts]:
+        out.violation('oracle', '%s: array call and scalar calls differ at levels %r%s' % (who, pts, prev_s), case=case)
+        return False
+    # areas between consecutive levels, once: of the object's own __call__ and of the reference
+    lv = sorted(set(levels))
+    own, mag, refa = [0.0], [0.0], [0.0]
+    for lo, hi in zip(lv, lv[1:]):
+        a1, m1 = area(obj, knots, lo, hi)
+        a2, _ = area(ref, knots, lo, hi)
+        own.append(own[-1] + a1)
+        mag.append(mag[-1] + m1)
+        refa.append(refa[-1] + a2)
+    for i, a in enumerate(lv):
+        for j, b in enumerate(lv):
+            v = fl(obj.integrate(a, b))
+            out.evaluations += 1
+            tol = 1e-9 * max(abs(mag[j] - mag[i]), scale * 1e-6)
+            for want, what in ((own[j] - own[i], 'the area under the same function'),
+                               (refa[j] - refa[i], 'the area under the spline through its own knots')):
+                if not abs(v - want) <= tol:
+                    out.violation('oracle', '%s: integrate(%r, %r) = %r but %s is %r%s'
+                                  % (who, a, b, v, what, want, prev_s), case=case)
+                    return False
+            if a != b and (min(a, b) < knots[0] or max(a, b) > knots[-1]):
+                out.nontriv(('h', tuple(knots), tuple(values), a, b))
+    return True
+
+
+def check_history(cases, out):
+    """Functions built one after the other in this process; see the module docstring."""
+    import gc
+    for k, case in enumerate(cases):
+        if 'earlier' not in case:
+            # what this process built before this sequence belongs to the failing input
+            case = dict(case, earlier=[{f: c[f] for f in ('level', 'kind', 'keep', 'seq', 'levels')} for c in cases[:k]])
+        seq, levels = case['seq'], [float(x) for x in case['levels']]
+        kept, ok, prev = [], True, None
+        for n, ks in enumerate(seq):
+            try:
+                obj = build(ks, via_factory=(n % 2 == 1))
+            except Exception as e:  # pylint: disable=broad-except
+                out.violation('oracle', 'SplineSpecificYield refused strictly increasing knots %r values %r as '
+                              'function number %d of a sequence: %s: %s'
+                              % (ks['knots'], ks['values'], n + 1, type(e).__name__, e), case=case)
+                ok = False
+                break
+            ok = history_member(ks, obj, levels, n, 'earlier ones %s' % ('kept alive' if case['keep'] else 'discarded'),
+                                prev, out, case)
+            out.count('history:functions')
+            out.count('history:%s:%s' % (case['kind'], 'kept' if case['keep'] else 'discarded'))
+            prev = ks
+            if case['keep']:
+                kept.append((n, ks, obj))
+            del obj
+            gc.collect()
+            if not ok:
+                break
+        # the functions kept alive, used again (latest first) after all of them were built
+        for n, ks, obj in reversed(kept[:-1] if ok else []):
+            out.count('history:used-again')
+            if not history_member(ks, obj, levels, n, 'used again after all %d were built' % len(seq), seq[-1], out, case):
+                break
+        del kept
+        gc.collect()
+
+
 # ------------------------------------------------------------- driver
 
 def check_sets(sets, seed, out, label):
@@ -363,6 +469,7 @@ def run(ctx, out):
     C.import_spowtd()
     seed, tier = ctx['seed'], ctx['tier']
     rng = C.rng_for(seed, PROP)
+    check_history(history_cases(seed, 2 if tier == 'quick' else 12), out)
     nsets = 200 if tier == 'quick' else 2000
     sets = []
     kinds = ['param', 'wide', 'tight', 'full', 'wiggly', 'negative']
@@ -384,7 +491,9 @@ def run(ctx, out):
                 '0.1..300 mm, six kinds incl. values of both signs) x the 36 ordered pairs of positions '
                 '{below, xmin, inside, interior knot, xmax, above}; scalar and array calls. Non-trivial: '
                 'an integral with distinct limits at least one of which lies outside the knot range; '
-                'distinct by (knots, a, b).')
+                'distinct by (knots, a, b). History: sequences of 3-5 functions per kind of sharing (all knot '
+                'levels / both or one end level / all values / end values; earlier functions discarded or kept '
+                'alive and used again) x all ordered pairs of ~12 common levels.')
     out.samples = [dict(knots=s_[0]['knots'], values=s_[0]['values'], pairs=[p[2:] for p in s_[1][:3]])
                    for s_ in sets[:2]]
     out.assumptions += [
@@ -399,6 +508,10 @@ def run(ctx, out):
 
 def replay(case, out):
     C.import_spowtd()
+    if case.get('level') == 'history':
+        check_history([dict(c, earlier=[]) for c in case.get('earlier', [])], C.Outcome(PROP))   # rebuild the history
+        check_history([case], out)
+        return
     if case.get('level') == 'malformed':
         try:
             build(dict(knots=case['knots'], values=case['values']))
